@@ -22,7 +22,7 @@ from pathlib import Path
 import networkx as nx
 
 from loki import Scheduler, SchedulerConfig, Transformation, ProcessingStrategy
-from loki.batch import ExternalItem, FileItem, ProcedureItem
+from loki.batch import ExternalItem, FileItem, ProcedureItem, ModuleItem
 from loki.frontend import REGEX, FP
 from loki.transformations.build_system import (FileWriteTransformation, DependencyTransformation,
                                                ModuleWrapTransformation)
@@ -278,6 +278,66 @@ def gen_ops(rng, proj):
     return ops
 
 
+def gen_family(rng):
+    """the families of the strengthening round: suffix renaming (optionally after wrapping) of a project in which a
+    kernel module keeps a routine outside the graph (removed as inactive, its cache entry must go) and some names contain
+    the suffix; one top-level unit per file"""
+    for _ in range(60):
+        proj = gen_project(rng)
+        for i, u in enumerate(proj['units']):
+            u[0] = i
+        big = [u for u in proj['units'] if u[1] == 'mod' and len(u[3]) >= 2 and 'r0' not in u[3]]
+        if big and all(len(u[3]) == 1 for u in proj['units'] if 'r0' in u[3]):
+            break
+    for u in big[:1]:
+        victim = u[3][-1]
+        for r in proj['routines']:
+            r['calls'] = [c for c in r['calls'] if c != victim]
+    for r in proj['routines']:      # no variable imports from kernel modules (known class retained-module)
+        hm = {u[2] for u in proj['units'] if u[1] == 'mod' and not u[3]}
+        r['usev'] = [m for m in r['usev'] if m in hm]
+    cfg = gen_config(rng, proj)
+    cfg['seeds'] = cfg['seeds'][:1]
+    cfg['routines'] = [e for e in cfg['routines'] if e[0] == 'r0']
+    dep = ['dep', rng.choice(['_x', '_gpu', '_t']), rng.choice(['_mod', '_mod', None])]
+    ops = rng.choice([[dep], [dep], [['wrap', '_mod'], dep]])
+    if len(ops) == 2:
+        proj['cinc'] = True
+    return decorate(rng, proj, cfg, ops, force=True)
+
+
+def decorate(rng, proj, cfg, ops, force=False):
+    """names that contain the suffixes of the operations (the transformations append, strip and compare suffixes as plain
+    strings): some routines / modules are renamed so that a suffix occurs at the start, in the middle, or twice inside the
+    name (never at its end: `name.endswith(suffix)` is the documented idempotence test).  Consistent over project, config,
+    seeds and operations."""
+    sufs = [o[1] for o in ops if o[0] == 'dep'] + [o[2] for o in ops if o[0] == 'dep' and o[2]] + \
+           [o[1] for o in ops if o[0] == 'wrap'] + [o[3] for o in ops if o[0] == 'dup']
+    sufs = [x.lower() for x in sufs if x]
+    if not sufs or not (force or rng.random() < 0.3):
+        return proj, cfg, ops
+    names = [r['name'] for r in proj['routines']]
+    mods = [u[2] for u in proj['units'] if u[1] == 'mod']
+    ren = {}
+    for n in rng.sample(names, min(len(names), rng.randint(1, 3))):
+        x = rng.choice(sufs)
+        ren[n] = rng.choice([f'{n}{x}k', f'a{x}_{n}', f'{n}{x}{x}q', f'{n}{x[:2]}{x}z'])
+    for m in rng.sample(mods, min(len(mods), rng.randint(0, 2))):
+        x = rng.choice(sufs)
+        ren[m] = rng.choice([f'{m}{x}q', f'b{x}_{m}'])
+    f = lambda n: ren.get(n, n)        # noqa: E731
+    proj2 = dict(proj, units=[[u[0], u[1], f(u[2]) if u[2] else u[2], [f(i) for i in u[3]]] for u in proj['units']],
+                 routines=[dict(r, name=f(r['name']), calls=[f(c) for c in r['calls']], usev=[f(m) for m in r['usev']])
+                           for r in proj['routines']])
+
+    def fseed(s_):
+        m, n = s_.split('#')
+        return f'{f(m) if m else m}#{f(n)}'
+    cfg2 = dict(cfg, seeds=[fseed(x) for x in cfg['seeds']], routines=[[f(n), e] for n, e in cfg['routines']])
+    ops2 = [[o[0], f(o[1])] + o[2:] if o[0] in ('dup', 'rem') else o for o in ops]
+    return proj2, cfg2, ops2
+
+
 # ------------------------------------------------------------------ the real runs
 
 class Probe(Transformation):
@@ -327,10 +387,26 @@ def snapshot(sched, root):
             badkeys.append([k, it.name])
     stale = sorted(it.name for it in sg.items
                    if not isinstance(it, ExternalItem) and sched.item_factory.item_cache.get(it.name) is not it)
+    # cache entries whose program unit does not exist in the source they point to (a deleted / renamed-away unit)
+    dead = []
+    for k, it in sched.item_factory.item_cache.items():
+        if isinstance(it, (FileItem, ExternalItem)) or not isinstance(it, (ProcedureItem, ModuleItem)):
+            continue
+        try:
+            if isinstance(it, ModuleItem):
+                ok = it.name in it.source
+            elif not it.scope_name:
+                ok = it.local_name in it.source
+            else:
+                ok = it.scope_name in it.source and it.local_name in it.source[it.scope_name]
+        except Exception:  # pylint: disable=broad-except
+            ok = False
+        if not ok:
+            dead.append(it.name)
     external = sorted(it.name for it in sg.items if isinstance(it, ExternalItem))
     procs = sorted(it.name for it in sg.items if isinstance(it, ProcedureItem))
     return dict(items=items, deps=deps, cache=sorted(cache), badkeys=sorted(badkeys), stale=stale, external=external,
-                procs=procs)
+                procs=procs, dead=sorted(dead))
 
 
 DEF_RE = re.compile(r'^\s*(module|subroutine)\s+(\w+)', re.I)
@@ -480,7 +556,7 @@ def check_files(res):
             top = unit.split('#')[0]
             if kind == 'use' and name not in mods:
                 probs.append((f'{n}: {unit} uses module {name}, which no file of the build defines', 'ref'))
-            elif kind == 'sym' and mod in mods and name.startswith('r') and (mod, name) not in inmod:
+            elif kind == 'sym' and mod in mods and not name.startswith('v_') and (mod, name) not in inmod:
                 probs.append((f'{n}: {unit} imports {name} from module {mod}, which does not define it', 'ref'))
             elif kind == 'call':
                 m = imported.get(unit, {}).get(name)
@@ -596,6 +672,9 @@ def check_run(res, plan, ops, cfg, link=False):
         if t['stale']:
             probs.append((f"{mode} run, after operation {i} {ops[i]}: graph nodes {t['stale'][:3]} are not the cache entries of "
                           f"their names", 'stale'))
+        if t.get('dead'):
+            probs.append((f"{mode} run, after operation {i} {ops[i]}: the item cache holds {t['dead'][:3]}, whose program "
+                          f"units do not exist in the sources the items point to (deleted or renamed away)", 'deadcache'))
         ext = [n for n in t['items'] if n in t.get('external', ())]
         if ext:
             probs.append((f'{mode} run, after operation {i} {ops[i]}: graph contains unresolved items {ext[:3]}', 'external'))
@@ -658,7 +737,7 @@ def top_level(keys):
 
 
 def state_sexp(t):
-    return [A('state'), [A('items')] + t['items'], [A('deps')] + [f'{a} {c}' for a, c in t['deps']],
+    return [A('state'), [A('dead')] + list(t.get('dead', [])), [A('items')] + t['items'], [A('deps')] + [f'{a} {c}' for a, c in t['deps']],
             [A('cache')] + top_level(t['cache']), [A('badkeys')] + [k for k, _ in t['badkeys']]]
 
 
@@ -763,7 +842,7 @@ def classify(proj, cfg, ops, plan):
     for i, o in enumerate(ops):
         if o[0] == 'dup' and home.get(o[1]) is None and 'wrap' in kinds[i + 1:] and not plan:
             cls.append('dup-free-then-wrap')
-        if o[0] == 'rem' and not plan and ((home.get(o[1]) is not None and 'dep' in kinds[i + 1:]) or
+        if o[0] == 'rem' and not plan and ((home.get(o[1]) is not None and ('dep' in kinds[i + 1:] or 'wrap' in kinds)) or
                                             (home.get(o[1]) is None and proj['cinc'] and 'wrap' in kinds[:i])):
             cls.append('removed-import-left')
         if o[0] == 'dup' and o[2]:
@@ -775,6 +854,10 @@ def classify(proj, cfg, ops, plan):
 
 CLASSES = ['shared-file', 'driver-callee', 'retained-module', 'dep-not-last',
            'wrap-without-interface', 'inactive-sibling', 'dup-free-then-wrap', 'removed-import-left', 'dup-subgraph', 'plan-removal-not-inherited']
+
+
+CACHE_TAGS = ('deadcache', 'badkeys', 'stale')
+CACHE_CLASSES = ('shared-file', 'dep-not-last', 'dup-subgraph')
 
 
 def twin(req, plan):
@@ -812,7 +895,14 @@ def oracle_case(req, link=False):
             probs.append((f"planning leaves the items {res['trace'][-1]['items']} but the conversion "
                           f"{other['trace'][-1]['items']}", 'plan-vs-conversion'))
     cls = classify(proj, cfg, ops, plan)
-    return [Failure(what, cls[0] if cls else None) for what, _ in probs[:3]]
+
+    def cls_of(tag):
+        # failures about the item cache are expected only where a unit is processed twice (shared file, repeated suffix
+        # renaming) or the subgraph duplication renames inside a clone; every other class is about references / files
+        ok = [c for c in cls if tag not in CACHE_TAGS or c in CACHE_CLASSES]
+        return ok[0] if ok else None
+    probs.sort(key=lambda p: p[1] not in CACHE_TAGS)       # cache failures first
+    return [Failure(what, cls_of(tag)) for what, tag in probs[:3]]
 
 
 class C25(Prop):
@@ -823,14 +913,15 @@ class C25(Prop):
     findings_module = 'LokiModel.Findings.C25'
     driver = 'Drivers/C25.lean'
     theorems = ['C25_refs_present', 'C25_op_preserves_keys', 'C25_op_closure', 'C25_ops_keys_closure',
-                'C25_rekey_nodup', 'C25_rekey_complete', 'C25_present_of_localClosed', 'C25_rem_preserves_consistent',
+                'C25_rekey_nodup', 'C25_rekey_complete', 'C25_rekey_no_deleted', 'C25_depCache_no_deleted',
+                'C25_depCache_complete', 'C25_replaceLast_append', 'C25_depRef_import_renamed', 'C25_present_of_localClosed', 'C25_rem_preserves_consistent',
                 'C25_rems_preserve_consistent', 'C25_op_noerr', 'C25_op_preserves_consistent_partial']
     design_ref = 'DESIGN.md 4.D C25'
     level = 'proof'
     level_text = ('Lean theorems about a model (`Rename`) of DuplicateKernel, RemoveKernel, ModuleWrapTransformation, '
                   'DependencyTransformation, rekey_item_cache and the re-discovery on (program units with resolved references, item '
                   'cache, graph): for ALL states, operations and operation sequences, planning and conversion: the cache keys equal '
-                  'the current item names (C25_op_preserves_keys, C25_rekey_nodup, C25_rekey_complete), the graph is exactly the '
+                  'the current item names (C25_op_preserves_keys, C25_rekey_nodup, C25_rekey_complete), no deleted item survives the rebuild of the cache (C25_rekey_no_deleted, C25_depCache_no_deleted, C25_depCache_complete), the import of a kernel of another module is renamed together with its call for every name, also one that contains the suffix (C25_replaceLast_append about the modelled replace_last, C25_depRef_import_renamed), the graph is exactly the '
                   'closure of the seeds in the rewritten sources and was built without error (C25_op_closure, C25_op_noerr, '
                   'C25_ops_keys_closure by list induction), every call/import of a graph item names a present graph item under the '
                   'invariant (C25_refs_present). Full invariant `Consistent` preserved by RemoveKernel and sequences of removals '
@@ -851,7 +942,9 @@ class C25(Prop):
     rule = ('C22 project generator (call DAG over 3-10 routines in modules / outside modules, header modules; 70% one unit per '
             'file), own renderer (interface includes for external callees in 60%, module-variable imports from header modules and '
             'in 25% from kernel modules), config: strict, extra seed, 4% further driver roles; 1-4 operations (60% in '
-            'loki_transform order: duplicate/remove, wrap, suffix; else random) with suffix / module-suffix options; every '
+            'loki_transform order: duplicate/remove, wrap, suffix; else random) with suffix / module-suffix options; in 30% some '
+            'routine / module names are decorated so that they contain a suffix of the sequence at the start, in the middle or '
+            'twice; plus a family stream (kernel module with a routine outside the graph, dep or wrap+dep, decorated names); every '
             'project in planning (REGEX, PLAN) and conversion mode (FP, SEQUENCE, files written to a mkdtemp dir); non-trivial '
             '= conversion run; distinct by request line')
     trusted_base = ['harness/props/c25.py snapshot()/scan() (export of the scheduler state, scanner of the written Fortran)',
@@ -860,7 +953,7 @@ class C25(Prop):
     assumptions = ['item names and suffixes are lower-case (covered class)',
                    'the untouched original files needed by the written files stay in the build, written files replace the '
                    'original of the same stem (CMake plan semantics, C24)']
-    extra_obligations = ['oracle: cache keys = item names, graph nodes are the cache entries, later processing visits exactly the '
+    extra_obligations = ['oracle: cache keys = item names, every cached procedure / module item has a program unit in its source, graph nodes are the cache entries, later processing visits exactly the '
                          'procedure items under their IR names, every call / USE / imported procedure in the written files is '
                          'defined in the build set, nothing defined or written twice, planning vs conversion graph',
                          'thorough tier: gfortran compiles and links the written files with a main program calling the seeds']
@@ -874,9 +967,15 @@ class C25(Prop):
             proj = gen_project(rng)
             cfg = gen_config(rng, proj)
             ops = gen_ops(rng, proj)
+            proj, cfg, ops = decorate(rng, proj, cfg, ops)
             for plan in (True, False):
                 req = make_request(proj, cfg, ops, plan)
-                sig = '-'.join(o[0] for o in ops)
+                yield Case(req, stream=('plan:' if plan else 'seq:') + ('covered' if covered(proj, ops, plan, cfg) else 'uncovered'),
+                           nontrivial=len(ops) >= 1 and not plan, key=dumps(req))
+        for _ in range({'quick': 3, 'thorough': 25, 'search': 15}.get(tier, 3)):
+            proj, cfg, ops = gen_family(rng)
+            for plan in (False,):
+                req = make_request(proj, cfg, ops, plan)
                 yield Case(req, stream=('plan:' if plan else 'seq:') + ('covered' if covered(proj, ops, plan, cfg) else 'uncovered'),
                            nontrivial=len(ops) >= 1 and not plan, key=dumps(req))
 
